@@ -68,6 +68,8 @@ ALGOS = [
     ('circuit', 'evaluate'), ('circuit', 'evaluate_at'), ('circuit', 'get_truth_table'),
     ('circuit', 'make_block_from_slice'),
     ('circuit', 'get_gates_truth_table'), ('circuit', 'format_circuit'), ('circuit', 'into_bench'),
+    ('circuit', '_traverse_circuit'), ('circuit', 'dfs'), ('circuit', 'bfs'),
+    ('validation', 'check_circuit_has_no_cycles'),
 ]
 
 COQ_TY.update({
@@ -75,8 +77,12 @@ COQ_TY.update({
     'stss': 'list (list st)', 'bools': 'list bool', 'boolvecs': 'list (list bool)',
     'enumpairs': 'list (nat * label)', 'labelpairs': 'list (label * label)', 'intpairs': 'list (label * Z)',
     'stpairs': 'list (label * st)', 'stsdict': 'dict (list st)', 'labelsdict': 'dict (list label)',
-    'ddict?': '?', 'strings': 'list string',
+    'ddict?': '?', 'strings': 'list string', 'tmode': 'tmode', 'tstate': 'tstate', 'statedict': 'dict tstate',
+    'events': 'list event', 'abortfn': 'label -> tstate -> option err',
 })
+# hook parameter -> (event constructor, takes a gate)
+HOOKS = {'on_enter_hook': ('EvEnter', True), 'on_discover_hook': ('EvDiscover', True), 'on_exit_hook': ('EvExit', True),
+         'unvisited_hook': ('EvUnvisited', True), 'on_traversal_end_hook': ('EvEnd', False)}
 DDICT_OF = {'st': 'stsdict', 'label': 'labelsdict'}
 LOCAL_DICT = {'labeldict': 'label', 'intdict': 'int', 'stdict': 'st'}
 DICT_OF = {v: k for k, v in LOCAL_DICT.items()}
@@ -96,6 +102,10 @@ HEADER = '''(* GENERATED by translator/t10_circuit_algos.py from cirbo/core/circ
    - a generator returns the list of the (label, gate) pairs it yields and is run to completion before its
      consumer starts;
    - a second circuit argument (`other`, `subcircuit`) is a different object from self;
+   - the five hooks of _traverse_circuit / dfs / bfs are observed as an event log (Model/Traverse.v `event`), which
+     also receives the yields; the generated functions return the log; the only hook that can raise is
+     on_discover_hook, through the parameter `abort`; reading a collections.defaultdict inserts the default in
+     Python, which is not modelled (gate_states[k] is `state_of`);
    - a Python set is the list of its elements in order of first insertion; `list(s)` / iteration over a set is
      `set_to_list self s` = the elements of s that are gates of self, in the order of the gate map of self,
      followed by the others (hand-model convention; Python's order is the hash order of the strings). *)
@@ -139,6 +149,22 @@ Definition convert_gate_fresh (c : circuit) (fresh : list string) (l : label) (g
     | [] => Err OutOfFuel
     end
   else do c' <- Converters.generated_convert_gate c l g ""; Ok (c', fresh).
+(* l.pop(i) for a Python int i (negative indices count from the end) *)
+Definition list_pop_at {A} (l : list A) (i : Z) : res (A * list A) :=
+  let n := Z.of_nat (length l) in
+  if (i <? - n)%Z || (n <=? i)%Z then Err PyIndexError
+  else let j := Z.to_nat (if (i <? 0)%Z then (i + n)%Z else i) in
+       match nth_error l j with
+       | Some x => Ok (x, firstn j l ++ skipn (S j) l)
+       | None => Err PyIndexError
+       end.
+Definition tmode_eqb (a b : tmode) : bool :=
+  match a, b with DFS, DFS => true | BFS, BFS => true | _, _ => false end.
+(* the hooks of a traversal are not code of the library: as in the hand model (Model/Traverse.v) a call of a hook
+   is recorded as an event of the log (a `yield` as EvYield); on_discover_hook(g, states) may raise, depending on
+   the label of g and its state: `abort` *)
+Definition hook_discover (abort : label -> tstate -> option err) (l : label) (s : tstate) : res unit :=
+  match abort l s with Some e => Err e | None => Ok tt end.
 (* zip( *rows ): as many tuples as the shortest row has elements; none when there are no rows *)
 Definition zip_star (rows : list (list st)) : list (list st) :=
   match rows with
@@ -234,8 +260,26 @@ class AlgoUnit(Unit):
                 none = len(a) >= 2 and isinstance(a[1], ast.Constant) and a[1].value is None
                 if none != (name == 'INPUT'):
                     raise TranslatorError(f'gate.{name}: INPUT must be the only gate type without an operator')
+        # the two enums of circuit.py and the constructors of the model
+        self.enums = {}
+        for n in self.mods['circuit'].body:
+            if isinstance(n, ast.ClassDef) and n.name in ('TraverseMode', 'TraverseState'):
+                if [ast.unparse(b) for b in n.bases] != ['enum.Enum']:
+                    raise TranslatorError(f'{n.name} must be an enum.Enum')
+                members = []
+                for st in n.body:
+                    if isinstance(st, ast.Assign) and len(st.targets) == 1 and isinstance(st.targets[0], ast.Name):
+                        members.append(st.targets[0].id)
+                    elif not (isinstance(st, ast.Expr) and isinstance(st.value, ast.Constant)):
+                        raise TranslatorError(f'{n.name}: body outside grammar')
+                self.enums[n.name] = members
+        if sorted(self.enums.get('TraverseMode', [])) != ['BFS', 'DFS'] \
+                or sorted(self.enums.get('TraverseState', [])) != ['ENTERED', 'UNVISITED', 'VISITED']:
+            raise TranslatorError(f'TraverseMode / TraverseState differ from the model: {self.enums}')
+        if self.imports['validation'].get('more_itertools') != ('more_itertools', None):
+            raise TranslatorError('validation.py: more_itertools must be the module')
         imp = self.imports['circuit']
-        for mod in ('copy', 'itertools'):
+        for mod in ('copy', 'itertools', 'collections'):
             if imp.get(mod) != (mod, None):
                 raise TranslatorError(f'circuit.py: `{mod}` must be the standard module')
         if imp.get('tp') != ('typing', None):
@@ -247,12 +291,14 @@ class AlgoUnit(Unit):
 
 
 class AlgoTr(FnTr):
-    FORBIDDEN = (ast.YieldFrom, ast.Await, ast.Try, ast.With, ast.Global, ast.Nonlocal, ast.NamedExpr)
+    FORBIDDEN = (ast.YieldFrom, ast.Await, ast.Try, ast.With, ast.Global, ast.NamedExpr)
 
     def __init__(self, unit, modkey, src, coqname, outer=None):
         super().__init__(unit, modkey, src, coqname, outer)
         self.fn.fuel_names = []
         self.fn.builder = None
+        self.fn.hooks = set()
+        self.local_imports = set()
         self.fuel_sites = {}
         self.loop_ks = []
         self.nloops = 0
@@ -282,7 +328,8 @@ class AlgoTr(FnTr):
             table = [
                 (r'bool', 'bool'), (r'str', 'label'), (r'tp_ext\.Self', 'circuit'),
                 (rf'dict\[({lab}|str),GateState\]', 'stdict'), (rf'dict\[{lab},{lab}\]', 'labeldict'),
-                (r'tp\.Sequence\[bool\]', 'sts'),
+                (r'tp\.Sequence\[bool\]', 'sts'), (r'TraverseMode', 'tmode'),
+                (r'Traverse(State)?HookT', 'hook'), (r'tp\.Optional\[tp\.Sequence\[Label\]\]', 'optlabels'),
             ]
             for rx, ty in table:
                 if re.fullmatch(rx, s):
@@ -357,8 +404,8 @@ class AlgoTr(FnTr):
                 else:
                     env['self'] = Var('self', 'circuit', 'self')
             args, defaults = args[1:], defaults[1:]
-        else:
-            fail(f, 'T10 translates methods only')
+        elif self.modkey != 'validation':
+            fail(f, 'T10 translates methods and validation functions only')
         if a.kwarg is not None:
             fn.has_kwarg = True
             self.kwarg = a.kwarg.arg
@@ -367,10 +414,22 @@ class AlgoTr(FnTr):
             code = self.vname(p, p.arg)
             if p.arg in env:
                 fail(p, 'parameter shadows the state')
+            if ty == 'hook':
+                # a traversal hook: observed through the event log, not a value
+                ok = (p.arg in HOOKS and isinstance(d, ast.Lambda) and isinstance(d.body, ast.Constant)
+                      and d.body.value is None and len(d.args.args) == (2 if HOOKS[p.arg][1] else 1))
+                if not ok:
+                    fail(p, 'hook parameter outside grammar')
+                fn.hooks.add(p.arg)
+                env[p.arg] = Var('', 'unit', 'hook')
+                continue
             if ty == 'circuit':
                 env[p.arg] = Var(code, 'circuit', 'circ')
                 if d is not None:
                     fail(p, 'default for a circuit parameter')
+                if self.self_code is None:
+                    # a validation function: the circuit parameter is the (read-only) state
+                    self.self_code, self.self_writable, self.self_py = code, False, p.arg
                 fn.params.append((p.arg, ty, None, False))
                 continue
             needs_label = ty in ('gate', 'block') and self.uses_attr(p.arg, {'label'} if ty == 'gate' else {'name'})
@@ -407,6 +466,8 @@ class AlgoTr(FnTr):
             out.append(f'({code} : {COQ_TY[ty]})')
         if getattr(self.fn, 'uses_fresh', False):
             out.append('(fresh : list string)')
+        if self.fn.hooks:
+            out.append('(abort : label -> tstate -> option err)')
         return ' '.join(out)
 
     # ------------------------------------------------------------ aliases of a second circuit
@@ -449,6 +510,15 @@ class AlgoTr(FnTr):
                 if isinstance(n, ast.Call) and self.is_convert_gate(n, env):
                     out.add('<fresh>')
                     out.add(self.self_py)
+                if isinstance(n, ast.Call) and isinstance(n.func, ast.Name) and n.func.id in env:
+                    v = env[n.func.id]
+                    if v.kind == 'hook':
+                        out.add('<log>')
+                    if v.kind == 'macro':
+                        for d in v.macro[1:]:
+                            out |= self.modset([b for b in d.body if not isinstance(b, ast.Nonlocal)], env)
+                if isinstance(n, ast.Yield) and '<log>' in env:
+                    out.add('<log>')
                 if isinstance(n, ast.Yield):
                     out.add('<yield>')
                 if isinstance(n, ast.AugAssign):
@@ -472,7 +542,7 @@ class AlgoTr(FnTr):
                 and all(s.value is not None and self.is_fresh_value(s.value, {}) for s in assigns))
 
     def carried(self, names, env):
-        names = [n for n in names if n in env and env[n].kind not in ('fn', 'lam')]
+        names = [n for n in names if n in env and env[n].kind not in ('fn', 'lam', 'macro', 'hook', 'hookdef')]
         return sorted(names, key=lambda n: (env[n].kind not in ('self', 'bself', 'circ'), n))
 
     def check_loop_body(self, s):
@@ -525,6 +595,17 @@ class AlgoTr(FnTr):
             return Val(terms[0] if len(terms) == 1 else '(' + ' ++ '.join(terms) + ')%string', 'label')
         if isinstance(node, ast.Name) and node.id == 'Undefined' and 'Undefined' not in env:
             return Val('U', 'st')
+        if isinstance(node, ast.Attribute) and isinstance(node.value, ast.Name) and node.value.id not in env \
+                and node.value.id in ('TraverseMode', 'TraverseState'):
+            enum = node.value.id
+            if not (self.u.imports[self.impkey].get(enum) == ('<local>', enum) or enum in self.local_imports):
+                fail(node, f'{enum} is not the enum of circuit.py')
+            if node.attr not in self.u.enums[enum]:
+                fail(node, f'unknown member of {enum}')
+            return Val(node.attr, 'tmode' if enum == 'TraverseMode' else 'tstate')
+        if isinstance(node, ast.UnaryOp) and isinstance(node.op, ast.USub) and isinstance(node.operand, ast.Constant) \
+                and type(node.operand.value) is int:
+            return Val(f'(-{node.operand.value})%Z', 'int')
         if isinstance(node, ast.UnaryOp) and isinstance(node.op, ast.Not):
             save = self.tmp
             sub = []
@@ -561,6 +642,20 @@ class AlgoTr(FnTr):
             return Val(f'(set_of_list {self.atom(v)})', 'labelset')
         return super().expr(node, env, pre)
 
+    def compare(self, node, env, pre):
+        if len(node.ops) == 1 and isinstance(node.ops[0], (ast.Eq, ast.NotEq)):
+            save, n0 = self.tmp, (len(pre) if pre is not None else 0)
+            l = self.expr(node.left, env, pre)
+            r = self.expr(node.comparators[0], env, pre)
+            if l.ty == r.ty and l.ty in ('tmode', 'tstate'):
+                eq = 'tmode_eqb' if l.ty == 'tmode' else 'tstate_beq'
+                code = f'{eq} {self.atom(l)} {self.atom(r)}'
+                return Val(code if isinstance(node.ops[0], ast.Eq) else f'negb ({code})', 'bool')
+            self.tmp = save
+            if pre is not None:
+                del pre[n0:]
+        return super().compare(node, env, pre)
+
     def ifexp(self, node, env, pre):
         nt = self.none_test_expr(node.test, env)
         if nt is not None:
@@ -592,6 +687,12 @@ class AlgoTr(FnTr):
         save = self.tmp
         sub = []
         base = self.expr(node.value, env, sub if pre is not None else None)
+        if base.ty == 'statedict':
+            # a defaultdict: a missing key reads as the default (the insertion of the key is not modelled)
+            if pre is not None:
+                pre.extend(sub)
+            k = self.typed(sl, env, pre, 'label')
+            return Val(f'(state_of {self.atom(base)} {k})', 'tstate')
         if base.ty in LOCAL_DICT:
             if pre is None:
                 fail(node, 'dict subscript (may raise KeyError) in a pure context')
@@ -746,8 +847,10 @@ class AlgoTr(FnTr):
 
     # ---- calls
     def is_module_attr(self, f, mod, attr, env):
+        want = ('cirbo.core.circuit', 'gate') if mod == 'gate' else ({'tp': 'typing'}.get(mod, mod), None)
         return (isinstance(f, ast.Attribute) and f.attr == attr and isinstance(f.value, ast.Name)
-                and f.value.id == mod and mod not in env and self.impkey == 'circuit')
+                and f.value.id == mod and mod not in env and self.u.imports[self.impkey].get(mod) == want
+                and (mod != 'gate' or self.impkey == 'circuit'))
 
     def call(self, node, env, pre):
         f = node.func
@@ -830,6 +933,13 @@ class AlgoTr(FnTr):
             if b.ty == 'sts':
                 return Val(f'(combine {self.atom(a)} {self.atom(b)})', 'stpairs')
             fail(node, 'zip(...) outside grammar')
+        # collections.defaultdict(lambda: TraverseState.UNVISITED)
+        if self.is_module_attr(f, 'collections', 'defaultdict', env) and plain and len(node.args) == 1 \
+                and isinstance(node.args[0], ast.Lambda) and not node.args[0].args.args:
+            d = self.pure(node.args[0].body, env, 'defaultdict default')
+            if d.ty != 'tstate' or d.code != 'UNVISITED':
+                fail(node, 'defaultdict default outside grammar')
+            return Val('[]', 'statedict')
         # collections.defaultdict(list)
         if self.is_module_attr(f, 'collections', 'defaultdict', env) and plain and len(node.args) == 1 \
                 and isinstance(node.args[0], ast.Name) and node.args[0].id == 'list' and 'list' not in env:
@@ -865,10 +975,15 @@ class AlgoTr(FnTr):
             elif len(node.args) == 1 and isinstance(node.args[0], ast.Constant) and node.args[0].value == 0 \
                     and type(node.args[0].value) is int:
                 op = 'list_pop0'
+            elif len(node.args) == 1:
+                i = self.pure(node.args[0], env, 'pop index')
+                if i.ty != 'int':
+                    fail(node, 'pop(i) outside grammar')
+                op = None
             else:
                 fail(node, 'pop(i) outside grammar')
             t = self.fresh()
-            pre.append((f'({t}, {q.code})', f'{op} {q.code}'))
+            pre.append((f'({t}, {q.code})', f'{op} {q.code}' if op else f'list_pop_at {q.code} {self.atom(i)}'))
             return Val(t, 'label')
         # d.items() / d.values() / d.keys() of a local dict
         if isinstance(f, ast.Attribute) and f.attr in ('items', 'values', 'keys') and not node.args and plain:
@@ -932,7 +1047,33 @@ class AlgoTr(FnTr):
         return Val(t, a.ty, alias)
 
     def call_code(self, c, node, env, pre):
-        code, callee = super().call_code(c, node, env, pre)
+        hooks = getattr(c[1], 'hooks', set())
+        abort = None
+        if hooks:
+            kept = []
+            abort = 'no_abort'
+            for k in node.keywords:
+                if k.arg in hooks:
+                    v = k.value
+                    if not (isinstance(v, ast.Name) and v.id in env):
+                        fail(node, 'a hook argument must be a hook parameter or a local hook definition')
+                    if env[v.id].kind == 'hook' and v.id == k.arg:
+                        if k.arg == 'on_discover_hook':
+                            abort = env['<abort>'].code
+                    elif env[v.id].kind == 'hookdef' and k.arg == 'on_discover_hook':
+                        abort = env[v.id].code
+                    else:
+                        fail(node, 'hook argument outside grammar')
+                else:
+                    kept.append(k)
+            node2 = ast.copy_location(ast.Call(func=node.func, args=node.args, keywords=kept), node)
+            code, callee = self.call_code_fuel(c, node2, env, pre, site=node)
+            return code + ' ' + abort, callee
+        return self.call_code_fuel(c, node, env, pre, site=node)
+
+    def call_code_fuel(self, c, node, env, pre, site):
+        code, callee = FnTr.call_code(self, c, node, env, pre)
+        node = site
         if getattr(callee, 'uses_fresh', False):
             fail(node, 'call of a function that consumes uuid values')
         n = len(getattr(callee, 'fuel_names', []))
@@ -948,6 +1089,38 @@ class AlgoTr(FnTr):
             return k.emit(env)
         s, rest = body[0], body[1:]
         kr = K(lambda e: self.stmts(rest, e, k), k.cheap and not rest, k.can_return) if rest else k
+        if isinstance(s, ast.ImportFrom):
+            ok = (s.module == 'cirbo.core.circuit.circuit' and s.level == 0 and len(s.names) == 1
+                  and s.names[0].name == 'TraverseState' and s.names[0].asname is None and 'TraverseState' not in env)
+            if not ok:
+                fail(s, 'local import outside grammar')
+            self.local_imports.add('TraverseState')
+            return kr.emit(env)
+        if isinstance(s, ast.FunctionDef) and s.name in HOOKS:
+            return self.define_hook(s, env, kr)
+        if isinstance(s, ast.If):
+            r = self.define_by_cases(s, env, kr)
+            if r is None:
+                r = self.define_macro(s, env, kr)
+            if r is not None:
+                return r
+        if isinstance(s, ast.Expr) and isinstance(s.value, ast.Call) and isinstance(s.value.func, ast.Name) \
+                and s.value.func.id in env and env[s.value.func.id].kind in ('hook', 'macro'):
+            if env[s.value.func.id].kind == 'hook':
+                return self.hook_call(s.value, env, kr)
+            return self.macro_call(s.value, env, kr)
+        if isinstance(s, ast.Expr) and isinstance(s.value, ast.Call) \
+                and self.is_module_attr(s.value.func, 'more_itertools', 'consume', env):
+            # consume(<generator>): run it for its effects / exceptions
+            call = s.value
+            if len(call.args) != 1 or call.keywords:
+                fail(s, 'consume(...) arguments')
+            pre = []
+            v = self.expr(call.args[0], env, pre)
+            if v.ty not in ('events', 'gatepairs') or not pre or pre[-1][0] != v.code:
+                fail(s, 'consume(...) of something that is not a generator call')
+            pre[-1] = ('_', pre[-1][1])
+            return '\n'.join(self.emit_pre(pre) + [kr.emit(env)])
         if isinstance(s, ast.While):
             return self.while_(s, env, kr)
         if isinstance(s, ast.Expr) and isinstance(s.value, ast.Yield):
@@ -985,8 +1158,205 @@ class AlgoTr(FnTr):
         if self.is_gen:
             if val is not None:
                 fail(self.src, 'return of a value inside a generator')
-            return self.ok(env['<yield>'].code)
+            return self.ok(env['<log>' if '<log>' in env else '<yield>'].code)
         return super().final(env, val)
+
+    # ---- traversal idioms
+    def cases_chain(self, s):
+        """if t1: x = e1 / raise  elif t2: ...  else: x = en / raise   ->  [(test | None, stmt)] or None"""
+        out = []
+        while True:
+            if len(s.body) != 1 or not isinstance(s.body[0], (ast.Assign, ast.AnnAssign, ast.Raise)):
+                return None
+            out.append((s.test, s.body[0]))
+            if len(s.orelse) == 1 and isinstance(s.orelse[0], ast.If):
+                s = s.orelse[0]
+                continue
+            if len(s.orelse) != 1 or not isinstance(s.orelse[0], (ast.Assign, ast.AnnAssign, ast.Raise)):
+                return None
+            out.append((None, s.orelse[0]))
+            return out
+
+    def define_by_cases(self, s, env, kr):
+        """a name that is first bound in every branch of an if / elif / else chain (the other branches raise)"""
+        chain = self.cases_chain(s)
+        if chain is None:
+            return None
+        names = set()
+        for _t, st in chain:
+            if isinstance(st, ast.Raise):
+                continue
+            tgt = st.targets[0] if isinstance(st, ast.Assign) and len(st.targets) == 1 else getattr(st, 'target', None)
+            if not isinstance(tgt, ast.Name) or st.value is None:
+                return None
+            names.add(tgt.id)
+        if len(names) != 1:
+            return None
+        name = names.pop()
+        if name in env:
+            return None
+        vals = []
+
+        def build(i, e):
+            test, st = chain[i]
+
+            def leaf(env_):
+                if isinstance(st, ast.Raise):
+                    return self.raise_(st)
+                v = self.pure(st.value, env_, 'value of a definition by cases')
+                ann = getattr(st, 'annotation', None)
+                if v.ty == 'nat' and ann is not None and ast.unparse(ann) == 'int':
+                    v = Val(f'{v.code}%Z', 'int')
+                vals.append((v, st.value))
+                return f'Ok {self.atom(v)}'
+            if test is None:
+                return leaf(e)
+            nt = self.none_test_expr(test, e)
+            if nt is not None:
+                nm, is_none = nt
+                v0 = self.lookup(test.left, e)
+                some_env, none_env = dict(e), dict(e)
+                some_env[nm] = Var(v0.code, v0.ty[3:], 'param', v0.alias, None)
+                none_env[nm] = Var(v0.code, 'unit', 'none')
+                this_env, rest_env = (none_env, some_env) if is_none else (some_env, none_env)
+                a = leaf(this_env)
+                b = build(i + 1, rest_env)
+                some_c, none_c = (b, a) if is_none else (a, b)
+                return f'(match {v0.code} with Some {v0.code} => {some_c} | None => {none_c} end)'
+            c = self.pure(test, e, 'test of a definition by cases')
+            if c.ty != 'bool':
+                fail(test, 'test of a definition by cases must be a bool')
+            return f'(if {c.code} then {leaf(e)} else {build(i + 1, e)})'
+        code = build(0, env)
+        tys = {v.ty for v, _ in vals}
+        if len(tys) != 1:
+            fail(s, f'definition by cases with values of types {sorted(tys)}')
+        ty = tys.pop()
+        if ty not in ('int', 'labels', 'label', 'bool', 'nat'):
+            fail(s, f'definition by cases of type {ty}')
+        fresh = ty == 'labels' and all(not v.alias and self.is_fresh_list(n, env) for v, n in vals)
+        alias = frozenset().union(*[v.alias for v, _ in vals])
+        vc = self.vname(s, name)
+        env2 = dict(env)
+        env2[name] = Var(vc, ty, 'mutlocal' if fresh else 'local', () if fresh else alias)
+        return '\n'.join([f'do {vc} <- {code};', kr.emit(env2)])
+
+    def define_macro(self, s, env, kr):
+        """if <test>: def f(p): ...   else: def f(q): ...     a procedure chosen once; f(e) is expanded in place"""
+        ok = (len(s.body) == 1 and len(s.orelse) == 1 and isinstance(s.body[0], ast.FunctionDef)
+              and isinstance(s.orelse[0], ast.FunctionDef) and s.body[0].name == s.orelse[0].name)
+        if not ok:
+            return None
+        name = s.body[0].name
+        if name in env:
+            fail(s, 'local procedure shadows a name')
+        for d in (s.body[0], s.orelse[0]):
+            a = d.args
+            if d.decorator_list or a.posonlyargs or a.kwonlyargs or a.vararg or a.kwarg or a.defaults or len(a.args) != 1 \
+                    or a.args[0].arg in env:
+                fail(d, 'local procedure signature')
+            for i, b in enumerate(d.body):
+                if isinstance(b, ast.Nonlocal):
+                    if any(n not in env for n in b.names):
+                        fail(b, 'nonlocal of an unknown name')
+                elif isinstance(b, ast.Return):
+                    if b.value is not None or i != len(d.body) - 1:
+                        fail(b, 'return inside a local procedure')
+                elif not isinstance(b, (ast.Assign, ast.Expr)):
+                    fail(b, 'statement of a local procedure outside grammar')
+                for n in ast.walk(b):
+                    if isinstance(n, (ast.FunctionDef, ast.Lambda, ast.Yield)):
+                        fail(n, 'local procedure body outside grammar')
+        # the test is evaluated when the procedure is chosen: it may mention only immutable parameters
+        for n in ast.walk(s.test):
+            if isinstance(n, ast.Name) and n.id in env and not (env[n.id].kind == 'param'
+                                                                and env[n.id].ty in ('bool', 'tmode', 'label')):
+                fail(s.test, 'the test that selects a local procedure must be about immutable parameters')
+        self.pure(s.test, env, 'test selecting a local procedure')
+        var = Var('', 'unit', 'macro')
+        var.macro = (s.test, s.body[0], s.orelse[0])
+        env2 = dict(env)
+        env2[name] = var
+        return kr.emit(env2)
+
+    def macro_call(self, call, env, kr):
+        test, d1, d2 = env[call.func.id].macro
+        if len(call.args) != 1 or call.keywords:
+            fail(call, 'call of a local procedure')
+        pre = []
+        arg = self.expr(call.args[0], env, pre)
+        if arg.ty != 'label':
+            fail(call, 'argument of a local procedure must be a label')
+        params = [d1.args.args[0].arg, d2.args.args[0].arg]
+        inner = dict(env)
+        for p_ in params:
+            inner[p_] = Var(arg.code, 'label', 'local')
+
+        def body(d):
+            b = [x for x in d.body if not isinstance(x, (ast.Nonlocal, ast.Return))]
+            return b or [ast.copy_location(ast.Pass(), d)]
+        node = ast.copy_location(ast.If(test=test, body=body(d1), orelse=body(d2)), call)
+        ast.fix_missing_locations(node)
+
+        def after(e):
+            e2 = dict(e)
+            for p_ in params:
+                e2.pop(p_, None)
+            return kr.emit(e2)
+        # `rest` must be non-empty for the join: the continuation is what follows the call
+        code = self.if_(node, [node], inner, K(after, kr.cheap, False), K(after, False, False))
+        return '\n'.join(self.emit_pre(pre) + [code])
+
+    def hook_call(self, call, env, kr):
+        name = call.func.id
+        ev, with_gate = HOOKS[name]
+        if '<log>' not in env or call.keywords or len(call.args) != (2 if with_gate else 1):
+            fail(call, 'hook call outside grammar')
+        st = call.args[-1]
+        if not (isinstance(st, ast.Name) and st.id in env and env[st.id].ty == 'statedict'):
+            fail(call, 'the last argument of a hook must be the dict of traversal states')
+        sts = self.lookup(st, env)
+        lc = env['<log>'].code
+        pre = []
+        if not with_gate:
+            return '\n'.join([f'let {lc} := {lc} ++ [{ev}] in', kr.emit(env)])
+        g = self.expr(call.args[0], env, pre)
+        if g.ty != 'gate' or g.label is None:
+            fail(call, 'the first argument of a hook must be a Gate whose label is known')
+        lines = self.emit_pre(pre)
+        if name == 'on_discover_hook':
+            s_ = f'(state_of {sts.code} {g.label})'
+            lines.append(f'do _ <- hook_discover {env["<abort>"].code} {g.label} {s_};')
+            lines.append(f'let {lc} := {lc} ++ [{ev} {g.label} {s_}] in')
+        else:
+            lines.append(f'let {lc} := {lc} ++ [{ev} {g.label}] in')
+        return '\n'.join(lines + [kr.emit(env)])
+
+    def define_hook(self, s, env, kr):
+        """def on_discover_hook(gate, gate_states): if gate_states[gate.label] == TraverseState.X: raise E(...)"""
+        a = s.args
+        ok = (s.name == 'on_discover_hook' and s.name not in env and not s.decorator_list and len(a.args) == 2
+              and not (a.posonlyargs or a.kwonlyargs or a.vararg or a.kwarg or a.defaults))
+        body = strip_docstring(s.body)
+        ok = ok and len(body) == 1 and isinstance(body[0], ast.If) and not body[0].orelse \
+            and len(body[0].body) == 1 and isinstance(body[0].body[0], ast.Raise)
+        if not ok:
+            fail(s, 'local hook definition outside grammar')
+        g, sts = a.args[0].arg, a.args[1].arg
+        t = body[0].test
+        ok = (isinstance(t, ast.Compare) and len(t.ops) == 1 and isinstance(t.ops[0], ast.Eq)
+              and ast.unparse(t.left) == f'{sts}[{g}.label]')
+        if not ok:
+            fail(s, 'the test of a local hook must be <states>[<gate>.label] == TraverseState.<X>')
+        x = self.pure(t.comparators[0], env, 'state in a local hook')
+        if x.ty != 'tstate':
+            fail(s, 'state in a local hook')
+        e = self.raise_(body[0].body[0])          # Err <Class>
+        var = Var(f'(fun (_ : label) (s_ : tstate) => if tstate_beq s_ {x.code} then Some {e[4:]} else None)',
+                  'abortfn', 'hookdef')
+        env2 = dict(env)
+        env2[s.name] = var
+        return kr.emit(env2)
 
     def yield_(self, y, env, kr):
         if not self.is_gen or y.value is None:
@@ -995,6 +1365,9 @@ class AlgoTr(FnTr):
         v = self.expr(y.value, env, pre)
         if v.ty != 'gate' or v.label is None:
             fail(y, 'only a Gate whose label is known may be yielded')
+        if '<log>' in env:
+            lc = env['<log>'].code
+            return '\n'.join(self.emit_pre(pre) + [f'let {lc} := {lc} ++ [EvYield {v.label}] in', kr.emit(env)])
         yc = env['<yield>'].code
         return '\n'.join(self.emit_pre(pre) + [f'let {yc} := {yc} ++ [({v.label}, {v.code})] in', kr.emit(env)])
 
@@ -1038,11 +1411,19 @@ class AlgoTr(FnTr):
                     if env[n.id].kind == 'lam':
                         used.add(env[n.id].lam[0])
                         todo += [env[n.id].lam[2], env[n.id].lam[3]]
-        if self.is_gen and any(isinstance(n, ast.Yield) for n in ast.walk(s)):
+                    if env[n.id].kind == 'macro':
+                        todo += [env[n.id].macro[0]] + list(env[n.id].macro[1].body) + list(env[n.id].macro[2].body)
+                    if env[n.id].kind == 'hook':
+                        used.add('<abort>')
+                        used.add('<log>')
+        if self.is_gen and '<yield>' in env and any(isinstance(n, ast.Yield) for n in ast.walk(s)):
             used.add('<yield>')
         if 'self._owner' in env and any(isinstance(n, ast.Attribute) and n.attr == '_owner' for n in ast.walk(s)):
             used.add('self._owner')
-        consts = [n for n in used if n not in names and env[n].kind not in ('fn', 'lam', 'none')]
+        if '<log>' in env and any(isinstance(n, ast.Yield) for n in ast.walk(s)):
+            used.add('<log>')
+        consts = [n for n in used if n in env and n not in names
+                  and env[n].kind not in ('fn', 'lam', 'none', 'macro', 'hook', 'hookdef')]
         consts = sorted(consts, key=lambda n: (env[n].kind not in ('self', 'bself', 'circ'), n))
         for n in consts + names:
             v = env[n]
@@ -1152,7 +1533,8 @@ class AlgoTr(FnTr):
             if self.is_new_circuit(val):
                 fail(s, 'Circuit() outside the builder form')
             # f = (lambda p: A) if c else (lambda p: B)
-            if any(isinstance(n, ast.Lambda) for n in ast.walk(val)):
+            if isinstance(val, ast.Lambda) or (isinstance(val, ast.IfExp) and any(
+                    isinstance(n, ast.Lambda) for n in (val.body, val.orelse))):
                 return self.define_lambda(s, name, val, env, kr)
             if name in env and env[name].kind in ('self', 'bself', 'circ', 'fn', 'lam'):
                 fail(s, 'assignment to the state variable / a function')
@@ -1171,7 +1553,7 @@ class AlgoTr(FnTr):
             pre = []
             v = self.expr(val, env, pre)
             if v.ty in LOCAL_DICT or v.ty == 'labelset' or (v.ty == 'label' and name in env) \
-                    or v.ty in ('st', 'sts', 'stss', 'bool', 'ddict?', 'gatedict'):
+                    or v.ty in ('st', 'sts', 'stss', 'bool', 'ddict?', 'gatedict', 'statedict', 'int', 'events'):
                 if name in env:
                     old = env[name]
                     if not (old.kind == 'local' and old.ty == v.ty == 'label'):
@@ -1182,7 +1564,8 @@ class AlgoTr(FnTr):
                                           or (o.label and re.search(rf'\b{re.escape(old.code)}\b', o.label))):
                             fail(s, f'{name} is rebound while {m} depends on it')
                 fresh = not v.alias and self.is_fresh_value(val, env)
-                kind = 'mutlocal' if fresh and (v.ty in LOCAL_DICT or v.ty in ('labelset', 'ddict?')) else 'local'
+                kind = 'mutlocal' if fresh and (v.ty in LOCAL_DICT or v.ty in ('labelset', 'ddict?', 'statedict')) \
+                    else 'local'
                 if v.ty == 'gatedict' and not (self.is_module_attr(getattr(val, 'func', None), 'copy', 'copy', env)):
                     fail(s, 'a local gate dict must be a copy.copy(...) snapshot')
                 env2 = dict(env)
@@ -1191,6 +1574,15 @@ class AlgoTr(FnTr):
             self.tmp = save[0]
             return super().assign(s, env, kr)
         # d[k] = v on a local dict
+        if isinstance(tgt, ast.Subscript) and isinstance(tgt.value, ast.Name) and tgt.value.id in env \
+                and env[tgt.value.id].ty == 'statedict':
+            d = self.lookup(tgt.value, env)
+            if d.kind != 'mutlocal':
+                fail(s, f'{tgt.value.id} is not a mutable local dict')
+            pre = []
+            v = self.typed(val, env, pre, 'tstate')
+            k = self.typed(tgt.slice, env, pre, 'label')
+            return '\n'.join(self.emit_pre(pre) + [f'let {d.code} := dset {d.code} {k} {v} in', kr.emit(env)])
         if isinstance(tgt, ast.Subscript) and isinstance(tgt.value, ast.Name) and tgt.value.id in env \
                 and env[tgt.value.id].ty in LOCAL_DICT:
             d = self.lookup(tgt.value, env)
@@ -1320,10 +1712,15 @@ class AlgoTr(FnTr):
             if isinstance(n, self.FORBIDDEN):
                 fail(n, 'construct outside grammar')
         self.is_gen = any(isinstance(n, ast.Yield) for n in ast.walk(f))
+        if fn.hooks:
+            env['<abort>'] = Var('abort', 'abortfn', 'param')
         if self.is_gen:
             if self.builder or self.is_property:
                 fail(f, 'generator form')
-            env['<yield>'] = Var('yielded', 'gatepairs', 'mutlocal')
+            if fn.hooks:
+                env['<log>'] = Var('log', 'events', 'mutlocal')
+            else:
+                env['<yield>'] = Var('yielded', 'gatepairs', 'mutlocal')
         if self.kwarg is not None:
             uses = [n for n in ast.walk(f) if isinstance(n, ast.Name) and n.id == self.kwarg]
             fwd = [k.value for n in ast.walk(f) if isinstance(n, ast.Call) for k in n.keywords if k.arg is None]
@@ -1359,13 +1756,13 @@ class AlgoTr(FnTr):
             fail(f, 'a property must be a single `return <pure expression>`')
         code = self.stmts(body, env, K(lambda e: self.fallthrough(e), True, True))
         if self.is_gen:
-            code = 'let yielded := [] in\n' + code
+            code = ('let log := [] in\n' if fn.hooks else 'let yielded := [] in\n') + code
         vals = [v for kind, v in self.returns if kind == 'value']
         kinds = {kind for kind, _ in self.returns}
         if self.is_gen:
             if vals or 'self' in kinds:
                 fail(f, 'a generator may only use a bare return')
-            fn.ret_ty, fn.returns_self, fn.ret_fresh = 'gatepairs', False, True
+            fn.ret_ty, fn.returns_self, fn.ret_fresh = ('events' if fn.hooks else 'gatepairs'), False, True
         elif vals:
             tys = {v.ty for v in vals}
             if len(tys) != 1 or kinds - {'value'}:
